@@ -441,7 +441,7 @@ def gen_binary(rng, n):
             elif op == "id":
                 out.append(case1(T + "id " + da, "OK " + b127_enc(va), ["b127:ctor"] + ["b127:ctor-" + c for c in cl]))
             elif op == "bit":
-                k = rng.randrange(127)
+                k = rng.choice([0, 0, 1, 31, 32, 62, 63, 63, 64, 126]) if rng.randrange(2) else rng.randrange(127)
                 w = rng.choice(["get_bit", "set_bit", "xor_bit"])
                 if w == "get_bit":
                     out.append(case1(T + "get_bit %s %d" % (da, k), "OK %08x" % ((va >> k) & 1), ["b127:get_bit"] + ["b127:bit-" + c for c in cl]))
